@@ -115,6 +115,16 @@ def draw_cfg(rng, prop: str, tier: str, overrides=None) -> dict:
         ms = magic_strings()
         if ms:
             cfg["ids"] += reserved_looking(ms) + rng.sample(ms, 1)  # reserved-looking ids
+            cfg["p_explicit_id"] = 0.4
+    # swarm member "reserved ids": most nodes carry a sentinel-looking explicit id and the
+    # history is rich in structural and refused operations
+    cfg["reserved_ids_run"] = False
+    if rng.random() < 0.04:
+        ms = reserved_looking(magic_strings())
+        if ms:
+            cfg["ids"] = list(ms)
+            cfg["p_explicit_id"] = 0.7
+            cfg["reserved_ids_run"] = True
     # label and id alphabets stay disjoint: tree[key] resolves ids before data (C09)
     cfg["ids"] = [i for i in cfg["ids"] if i not in cfg["labels"]]
     cfg["p_explicit_id"] = rng.choice([0.0, 0.1, 0.3]) if cfg["ids"] else 0.0
@@ -153,6 +163,10 @@ def draw_cfg(rng, prop: str, tier: str, overrides=None) -> dict:
         for k in ("clear", "remove_children"):
             w[k] = 0
         cfg["p_refuse"] = min(cfg["p_refuse"], 0.1)
+    if cfg.get("reserved_ids_run"):
+        cfg["p_refuse"] = 0.25
+        w["move"] = max(w.get("move", 0), 12) * 3
+        w["remove"] = max(w.get("remove", 0), 10) * 2
     cfg["weights"] = w
     keys = []
     for f in flav:
@@ -375,6 +389,10 @@ def gen_move(rng, cfg, w: World, opid: int, invalid: bool, steer: bool):
     nm = pick_node(rng, w, si)
     if nm is None:
         return None
+    if invalid and rng.random() < 0.5:
+        special = [n for n in mt.nodes() if n.explicit and n.children]
+        if special:
+            nm = rng.choice(special)  # nodes with explicit (possibly reserved-looking) ids
     op = {"id": opid, "k": "move", "node": nm.uid}
     if invalid and rng.random() < 0.5:
         r = rng.random()
